@@ -3,6 +3,7 @@ package rules
 import (
 	"go/token"
 	"go/types"
+	"math/big"
 	"strings"
 
 	"golang.org/x/tools/go/ssa"
@@ -17,6 +18,15 @@ import (
 // dominating comparison with the length of the same object, or by its interval
 // against a constant length.
 func NumIndex(sc Scope, resid []residual, min int) func(p *load.Program) *report.RuleResult {
+	return numIndex(sc, resid, min, false)
+}
+
+// NumSlice is NumIndex for the bounds of slice expressions x[a:b].
+func NumSlice(sc Scope, resid []residual, min int) func(p *load.Program) *report.RuleResult {
+	return numIndex(sc, resid, min, true)
+}
+
+func numIndex(sc Scope, resid []residual, min int, sliceMode bool) func(p *load.Program) *report.RuleResult {
 	return func(p *load.Program) *report.RuleResult {
 		r := newResult("NUM-INDEX", "every index into a slice, string or array in the "+sc.Name+" is inside the bounds by construction (range loop), by a dominating comparison with the length of the same object, or by the interval of the index against a known length; an index that can leave the bounds is a panic on some input", min)
 		used := map[int]bool{}
@@ -31,14 +41,48 @@ func NumIndex(sc Scope, resid []residual, min int) func(p *load.Program) *report
 					var x, idx ssa.Value
 					switch v := in.(type) {
 					case *ssa.IndexAddr:
-						x, idx = v.X, v.Index
-					case *ssa.Index:
-						x, idx = v.X, v.Index
-					case *ssa.Lookup:
-						if _, isStr := v.X.Type().Underlying().(*types.Basic); !isStr {
+						if sliceMode {
 							continue
 						}
 						x, idx = v.X, v.Index
+					case *ssa.Index:
+						if sliceMode {
+							continue
+						}
+						x, idx = v.X, v.Index
+					case *ssa.Lookup:
+						if _, isStr := v.X.Type().Underlying().(*types.Basic); !isStr || sliceMode {
+							continue
+						}
+						x, idx = v.X, v.Index
+					case *ssa.Slice:
+						if !sliceMode {
+							continue
+						}
+						if env == nil {
+							env = newIntervalEnv(p, fn)
+						}
+						env.at = in
+						facts := env.ff.At(in)
+						for _, bnd := range []struct {
+							v    ssa.Value
+							name string
+						}{{v.Low, "low"}, {v.High, "high"}} {
+							if bnd.v == nil {
+								continue
+							}
+							what := sprintf("%s[%s bound %s]", cleanPath(stripConv(ssau.Path(v.X))), bnd.name, describeOperand(bnd.v))
+							if by := sliceBoundOK(env, v.X, bnd.v, facts); by != "" {
+								r.OK(name, instrPos(p, in), what, by)
+							} else if i := matchResidual(resid, name, what); i >= 0 {
+								used[i] = true
+								r.Add(report.Obligation{Func: name, Pos: instrPos(p, in), What: what, Status: report.Discharged, By: "residual table: " + resid[i].reason})
+							} else {
+								br, _ := env.rangeOf(bnd.v, facts, map[ssa.Value]bool{}, 0)
+								r.Bad(name, instrPos(p, in), what, sprintf("slice bound interval %s is not known to be at most the length: a bound out of range panics", br))
+							}
+						}
+						continue
 					default:
 						continue
 					}
@@ -46,6 +90,7 @@ func NumIndex(sc Scope, resid []residual, min int) func(p *load.Program) *report
 						env = newIntervalEnv(p, fn)
 					}
 					env.notes = map[string]bool{}
+					env.at = in
 					facts := env.ff.At(in)
 					what := sprintf("%s[%s]", cleanPath(stripConv(ssau.Path(x))), describeOperand(idx))
 					by := indexInBounds(env, x, idx, facts)
@@ -76,21 +121,269 @@ func lenPathsOf(x ssa.Value) []string {
 	return []string{"len(" + xp + ")", "len(" + strings.TrimPrefix(xp, "&") + ")"}
 }
 
-func indexInBounds(env *intervalEnv, x, idx ssa.Value, facts ssau.FactSet) string {
-	// constant length (array or pointer to array)
-	var constLen int64 = -1
+// knownLen returns a lower bound of len(x) that holds at the point where facts
+// hold, and how it is known ("" = nothing beyond 0).
+func knownLen(env *intervalEnv, x ssa.Value, facts ssau.FactSet, depth int) (*big.Int, string) {
+	if depth > 4 {
+		return bi(0), ""
+	}
 	switch t := ssau.Deref(x.Type()).Underlying().(type) {
 	case *types.Array:
-		constLen = t.Len()
+		return bi(t.Len()), "array length"
 	}
+	switch v := x.(type) {
+	case *ssa.Slice:
+		// s := arr[:]  /  literal []T{...}
+		if v.Low == nil && v.High == nil {
+			if at, ok := ssau.Deref(v.X.Type()).Underlying().(*types.Array); ok {
+				return bi(at.Len()), "length of the array literal it slices"
+			}
+		}
+	case *ssa.MakeSlice:
+		if k, ok := ssau.ConstInt(v.Len); ok {
+			return bi(k), "constant make length"
+		}
+		if lr, ok := env.rangeOf(v.Len, env.ff.At(v), map[ssa.Value]bool{}, 0); ok && lr.lo.Sign() > 0 {
+			return lr.lo, "lower bound of the length it was made with"
+		}
+	case *ssa.Const:
+		if s, ok := ssau.ConstString(v); ok {
+			return bi(int64(len(s))), "constant string"
+		}
+	case *ssa.UnOp:
+		// load of a package-level variable initialised once with a constant / literal
+		if g, ok := v.X.(*ssa.Global); ok && v.Op == token.MUL {
+			if n, ok := globalInitLen(env.p, g); ok {
+				return bi(n), "length of the package-level constant table"
+			}
+		}
+	case *ssa.Call:
+		if f := v.Call.StaticCallee(); f != nil && f.Pkg != nil && f.Pkg.Pkg.Path() == "math/big" && (f.Name() == "String" || f.Name() == "Text") {
+			return bi(1), "the decimal text of a big.Int has at least one character"
+		}
+	case *ssa.Extract:
+		if c, ok := v.Tuple.(*ssa.Call); ok && v.Index == 0 {
+			if n, why := resultLen(env, c, facts); why != "" {
+				return n, why
+			}
+		}
+	case *ssa.Parameter:
+		// every module call site passes a value of known length
+		if n, ok := paramLenFromCallers(env, v); ok {
+			return bi(n), "every caller passes a slice of that length"
+		}
+	}
+	// s != "" on the same path
+	xp := stripConv(ssau.Path(x))
+	for f := range facts {
+		if f.Kind == "ne" && stripConv(f.Path) == xp && f.Arg == `k:""` {
+			return bi(1), "dominated by a comparison with the empty string"
+		}
+	}
+	// facts on len(x)
+	r := ival{bi(0), maxLen()}
+	for _, lp := range lenPathsOf(x) {
+		r = env.refinePath(stripConv(lp), r, facts)
+	}
+	if r.lo.Sign() > 0 {
+		return r.lo, "dominating comparison(s) of the length with constants"
+	}
+	return bi(0), ""
+}
+
+// globalInitLen: the package-level variable is stored exactly once, in init,
+// with a constant string or an array/slice literal of known length.
+func globalInitLen(p *load.Program, g *ssa.Global) (int64, bool) {
+	if p == nil || g.Pkg == nil {
+		return 0, false
+	}
+	init := g.Pkg.Func("init")
+	if init == nil {
+		return 0, false
+	}
+	n, found := int64(0), 0
+	for _, b := range init.Blocks {
+		for _, in := range b.Instrs {
+			st, ok := in.(*ssa.Store)
+			if !ok || st.Addr != ssa.Value(g) {
+				continue
+			}
+			found++
+			if s, ok := ssau.ConstString(st.Val); ok {
+				n = int64(len(s))
+			} else if sl, ok := st.Val.(*ssa.Slice); ok {
+				if at, ok := ssau.Deref(sl.X.Type()).Underlying().(*types.Array); ok && sl.Low == nil && sl.High == nil {
+					n = at.Len()
+				} else {
+					return 0, false
+				}
+			} else {
+				return 0, false
+			}
+		}
+	}
+	// written elsewhere?
+	if found != 1 {
+		return 0, false
+	}
+	for _, fn := range p.Funcs {
+		if fn == init {
+			continue
+		}
+		for _, b := range fn.Blocks {
+			for _, in := range b.Instrs {
+				if st, ok := in.(*ssa.Store); ok && st.Addr == ssa.Value(g) {
+					return 0, false
+				}
+			}
+		}
+	}
+	return n, true
+}
+
+var paramLenBusy = map[*ssa.Parameter]bool{}
+
+// paramLenFromCallers: smallest known length over all module call sites.
+func paramLenFromCallers(env *intervalEnv, prm *ssa.Parameter) (int64, bool) {
+	fn := prm.Parent()
+	if fn == nil || env.p == nil || paramLenBusy[prm] || (fn.Object() != nil && fn.Object().Exported()) {
+		return 0, false
+	}
+	idx := -1
+	for i, q := range fn.Params {
+		if q == prm {
+			idx = i
+		}
+	}
+	if idx < 0 {
+		return 0, false
+	}
+	paramLenBusy[prm] = true
+	defer delete(paramLenBusy, prm)
+	min := int64(-1)
+	sites := 0
+	for _, caller := range env.p.Funcs {
+		var ce *intervalEnv
+		for _, b := range caller.Blocks {
+			for _, in := range b.Instrs {
+				c, ok := in.(ssa.CallInstruction)
+				if !ok || c.Common().StaticCallee() != fn {
+					continue
+				}
+				sites++
+				if ce == nil {
+					ce = newIntervalEnv(env.p, caller)
+				}
+				l, why := knownLen(ce, c.Common().Args[idx], ce.ff.At(in), 1)
+				if why == "" || !l.IsInt64() {
+					return 0, false
+				}
+				if min < 0 || l.Int64() < min {
+					min = l.Int64()
+				}
+			}
+		}
+	}
+	if sites == 0 || min < 0 {
+		return 0, false
+	}
+	return min, true
+}
+
+func indexInBounds(env *intervalEnv, x, idx ssa.Value, facts ssau.FactSet) string {
 	ir, ok := env.rangeOf(idx, facts, map[ssa.Value]bool{}, 0)
-	if ok && constLen >= 0 && ir.lo.Sign() >= 0 && ir.hi.Cmp(bi(constLen-1)) <= 0 {
-		return "index interval " + ir.String() + " inside the array length " + sprintf("%d", constLen)
+	if kl, why := knownLen(env, x, facts, 0); ok && why != "" && ir.lo.Sign() >= 0 && ir.hi.Cmp(kl) < 0 {
+		return "index interval " + ir.String() + " below the length (at least " + kl.String() + ": " + why + ")"
 	}
 	// make([]T, n) / literal with known length and small interval
 	if ms, isMake := x.(*ssa.MakeSlice); isMake {
 		if k, okk := ssau.ConstInt(ms.Len); okk && ok && ir.lo.Sign() >= 0 && ir.hi.Cmp(bi(k-1)) <= 0 {
 			return "index interval inside the constant length of the slice made here"
+		}
+	}
+	// x = make([]T, idx+k) with k >= 1
+	if ms, isMake := x.(*ssa.MakeSlice); isMake {
+		if bo, okb := ms.Len.(*ssa.BinOp); okb && bo.Op == token.ADD {
+			if k, okk := ssau.ConstInt(bo.Y); okk && k >= 1 && stripConv(ssau.Path(bo.X)) == stripConv(ssau.Path(idx)) && ok && ir.lo.Sign() >= 0 {
+				return "the slice was made with this index plus a positive constant as its length"
+			}
+		}
+	}
+	// x, err := Peek(idx+1) with err == nil
+	if ex, isEx := x.(*ssa.Extract); isEx && ex.Index == 0 {
+		if c, okc := ex.Tuple.(*ssa.Call); okc {
+			if f := c.Call.StaticCallee(); f != nil && f.Pkg != nil && f.Pkg.Pkg.Path() == "bufio" && f.Name() == "Peek" && facts.Has("nil", ssau.Path(c)+"#1", "") {
+				if bo, okb := c.Call.Args[1].(*ssa.BinOp); okb && bo.Op == token.ADD {
+					if k, okk := ssau.ConstInt(bo.Y); okk && k >= 1 && stripConv(ssau.Path(bo.X)) == stripConv(ssau.Path(idx)) {
+						// Peek(negative) fails, so idx+1 >= 1 whenever err == nil
+						return "Peek(index+1) returned no error, so index+1 bytes are there"
+					}
+				}
+			}
+		}
+	}
+	// descending loop: for i := len(x)-1; i >= 0; i--
+	if ph, isPhi := idx.(*ssa.Phi); isPhi && len(ph.Edges) == 2 && ok && ir.lo.Sign() >= 0 {
+		desc := 0
+		for _, ed := range ph.Edges {
+			bo, okb := ed.(*ssa.BinOp)
+			if !okb || bo.Op != token.SUB {
+				continue
+			}
+			if k, okk := ssau.ConstInt(bo.Y); okk && k == 1 {
+				if bo.X == ssa.Value(ph) {
+					desc++
+				} else {
+					for _, lp := range lenPathsOf(x) {
+						if stripConv(ssau.Path(bo.X)) == stripConv(lp) {
+							desc++
+						}
+					}
+				}
+			}
+		}
+		if desc == 2 {
+			return "descending loop from len-1 with a dominating index >= 0 test"
+		}
+	}
+	// both the indexed object and the index are parameters: every call site establishes the bound
+	if why := callersEstablishIndex(env, x, idx); why != "" {
+		return why
+	}
+	// x = make([]T, len(y)) indexed by the range index over y (parallel slice filled in one loop)
+	if ms, isMake := x.(*ssa.MakeSlice); isMake {
+		if lc, okc := ms.Len.(*ssa.Call); okc {
+			if b, okb := lc.Call.Value.(*ssa.Builtin); okb && b.Name() == "len" && isRangeIndexOf(idx, lc.Call.Args[0]) {
+				return "the slice was made with the length of the object whose range loop produces the index"
+			}
+		}
+	}
+	// idx = base + k1 with a dominating  base + k2 <= len(x)  (k2 > k1)  or  base + k2 < len(x)  (k2 >= k1)
+	{
+		base, k1 := idx, int64(0)
+		if bo, okb := idx.(*ssa.BinOp); okb && bo.Op == token.ADD {
+			if k, okk := ssau.ConstInt(bo.Y); okk && k >= 0 {
+				base, k1 = bo.X, k
+			}
+		}
+		br, okr := env.rangeOf(base, facts, map[ssa.Value]bool{}, 0)
+		bp := stripConv(ssau.Path(base))
+		if okr && br.lo.Sign() >= 0 {
+			for f := range facts {
+				a, b := stripConv(f.Path), stripConv(f.Arg)
+				for _, lp := range lenPathsOf(x) {
+					lp = stripConv(lp)
+					for k2 := k1; k2 <= k1+8; k2++ {
+						shifted := sprintf("(%s+k:%d)", bp, k2)
+						if a == shifted && b == lp && ((f.Kind == "le" && k2 > k1) || f.Kind == "lt") {
+							return "dominated by index plus a constant within the length of the same object"
+						}
+						if a == lp && b == shifted && ((f.Kind == "ge" && k2 > k1) || f.Kind == "gt") {
+							return "dominated by index plus a constant within the length of the same object"
+						}
+					}
+				}
+			}
 		}
 	}
 	// range loop over the same object
@@ -118,6 +411,24 @@ func indexInBounds(env *intervalEnv, x, idx ssa.Value, facts ssau.FactSet) strin
 				}
 				if f.Kind == "ne" && kv == 0 && k == 0 {
 					return "dominated by len != 0"
+				}
+			}
+		}
+	}
+	// idx = b - k with k >= 1, b >= k and b <= len(x)   (1-based ID to 0-based index)
+	if bo, isB := idx.(*ssa.BinOp); isB && bo.Op == token.SUB {
+		if k, isConst := ssau.ConstInt(bo.Y); isConst && k >= 1 {
+			br, okb := env.rangeOf(bo.X, facts, map[ssa.Value]bool{}, 0)
+			bp := stripConv(ssau.Path(bo.X))
+			if okb && br.lo.Cmp(bi(k)) >= 0 {
+				for f := range facts {
+					a, b := stripConv(f.Path), stripConv(f.Arg)
+					for _, lp := range lenPathsOf(x) {
+						lp = stripConv(lp)
+						if (a == bp && b == lp && (f.Kind == "le" || f.Kind == "lt")) || (a == lp && b == bp && (f.Kind == "ge" || f.Kind == "gt")) {
+							return "a 1-based value known to be at least " + sprintf("%d", k) + " and at most the length, minus " + sprintf("%d", k)
+						}
+					}
 				}
 			}
 		}
@@ -168,4 +479,399 @@ func isRangeIndexOf(idx, x ssa.Value) bool {
 		}
 	}
 	return false
+}
+
+// resultLen: the length of result #0 of a call when its error result is known
+// to be nil: bufio.Reader.Peek(n) returns exactly n bytes; a module function
+// whose every successful return establishes len(result) == parameter (readN)
+// returns that many.
+func resultLen(env *intervalEnv, c *ssa.Call, facts ssau.FactSet) (*big.Int, string) {
+	f := c.Call.StaticCallee()
+	if f == nil {
+		return nil, ""
+	}
+	// the error result must be known nil here
+	res := f.Signature.Results()
+	ei := res.Len() - 1
+	if ei < 1 || !ssau.IsErrorType(res.At(ei).Type()) {
+		return nil, ""
+	}
+	if !facts.Has("nil", ssau.Path(c)+sprintf("#%d", ei), "") {
+		return nil, ""
+	}
+	var nArg ssa.Value
+	why := ""
+	switch {
+	case f.Pkg != nil && f.Pkg.Pkg.Path() == "bufio" && f.Name() == "Peek" && len(c.Call.Args) == 2:
+		nArg, why = c.Call.Args[1], "bufio.Reader.Peek(n) returns n bytes when it returns no error"
+	case env.p != nil && env.p.InModule(f):
+		if pi := lenEqualsParam(env.p, f); pi >= 0 && pi < len(c.Call.Args) {
+			nArg, why = c.Call.Args[pi], "every successful return of "+env.p.FuncName(f)+" establishes len(result) == its length parameter"
+		}
+	}
+	if nArg == nil {
+		return nil, ""
+	}
+	// the interval of the length argument, evaluated where the call is made
+	// and refined by what is known now about the same (unchanged) value
+	nr, ok := env.rangeOf(nArg, env.ff.At(c), map[ssa.Value]bool{}, 0)
+	if !ok {
+		return nil, ""
+	}
+	// what is known now about the same value: always usable for a pure SSA
+	// value; for a value loaded from memory only if nothing on the way from the
+	// call may have written that memory
+	if nr2, ok2 := env.rangeOf(nArg, facts, map[ssa.Value]bool{}, 0); ok2 {
+		if u, isLoad := nArg.(*ssa.UnOp); !isLoad || u.Op != token.MUL || noKillBetween(env, c, env.at, ssau.Path(nArg)) {
+			nr = nr.meet(nr2)
+		}
+	}
+	if nr.lo.Sign() <= 0 {
+		return nil, ""
+	}
+	return nr.lo, why
+}
+
+var lenEqCache = map[*ssa.Function]int{}
+
+// lenEqualsParam returns the index of the parameter n such that every return
+// of f with a nil error has len(result#0) == n established (or returns a nil
+// slice under n == 0); -1 if there is none.
+func lenEqualsParam(p *load.Program, f *ssa.Function) int {
+	if v, ok := lenEqCache[f]; ok {
+		return v
+	}
+	lenEqCache[f] = -1
+	if len(f.Blocks) == 0 {
+		return -1
+	}
+	res := f.Signature.Results()
+	ei := res.Len() - 1
+	if ei < 1 {
+		return -1
+	}
+	if _, isSlice := res.At(0).Type().Underlying().(*types.Slice); !isSlice {
+		return -1
+	}
+	ff := ssau.ComputeFacts(f, callAndStoreKills(p))
+	for pi, prm := range f.Params {
+		if _, ok := typeRange(prm.Type()); !ok {
+			continue
+		}
+		pp := "p." + prm.Name()
+		okAll, any := true, false
+		for _, ret := range returns(f) {
+			if !ssau.IsNilConst(ret.Results[ei]) {
+				continue
+			}
+			any = true
+			fs := ff.At(ret)
+			rv := ret.Results[0]
+			if ssau.IsNilConst(rv) {
+				if !fs.Has("eq", pp, "k:0") {
+					okAll = false
+				}
+				continue
+			}
+			lp := "len(" + ssau.Path(rv) + ")"
+			found := false
+			for fct := range fs {
+				if fct.Kind != "eq" {
+					continue
+				}
+				a, b := stripConv(fct.Path), stripConv(fct.Arg)
+				if (a == lp && b == pp) || (a == pp && b == lp) {
+					found = true
+				}
+			}
+			if !found {
+				okAll = false
+			}
+		}
+		if okAll && any {
+			lenEqCache[f] = pi
+			return pi
+		}
+	}
+	return -1
+}
+
+// callersEstablishIndex: x is a parameter and idx is a parameter (plus a
+// constant); at every module call site of the (unexported, directly called)
+// function the argument for idx (plus the constant) is below the known length
+// of the argument for x.
+func callersEstablishIndex(env *intervalEnv, x, idx ssa.Value) string {
+	xp, ok := x.(*ssa.Parameter)
+	if !ok || env.p == nil {
+		return ""
+	}
+	add := int64(0)
+	ib := idx
+	if bo, okb := idx.(*ssa.BinOp); okb && bo.Op == token.ADD {
+		if k, okk := ssau.ConstInt(bo.Y); okk && k >= 0 {
+			ib, add = bo.X, k
+		}
+	}
+	ip, ok := ib.(*ssa.Parameter)
+	if !ok {
+		return ""
+	}
+	fn := xp.Parent()
+	if fn == nil || fn != ip.Parent() || fn.Object() == nil || fn.Object().Exported() || addressTaken(env.p, fn) {
+		return ""
+	}
+	xi, ii := -1, -1
+	for i, q := range fn.Params {
+		if q == xp {
+			xi = i
+		}
+		if q == ip {
+			ii = i
+		}
+	}
+	sites := 0
+	for _, caller := range env.p.Funcs {
+		var ce *intervalEnv
+		for _, b := range caller.Blocks {
+			for _, in := range b.Instrs {
+				c, ok := in.(ssa.CallInstruction)
+				if !ok || c.Common().StaticCallee() != fn {
+					continue
+				}
+				sites++
+				if ce == nil {
+					ce = newIntervalEnv(env.p, caller)
+					ce.callDepth = env.callDepth + 1
+				}
+				if ce.callDepth > 4 {
+					return ""
+				}
+				fs := ce.ff.At(in)
+				ax, ai := c.Common().Args[xi], c.Common().Args[ii]
+				ar, okr := ce.rangeOf(ai, fs, map[ssa.Value]bool{}, 0)
+				kl, why := knownLen(ce, ax, fs, 1)
+				if okr && why != "" && ar.lo.Sign() >= 0 && new(big.Int).Add(ar.hi, bi(add)).Cmp(kl) < 0 {
+					continue
+				}
+				// or the caller's own index fact / the caller's callers
+				var shifted ssa.Value = ai
+				if indexInBoundsShifted(ce, ax, shifted, add, fs) {
+					continue
+				}
+				return ""
+			}
+		}
+	}
+	if sites == 0 {
+		return ""
+	}
+	return sprintf("every one of the %d call sites passes an index below the length of the object it passes", sites)
+}
+
+// indexInBoundsShifted: idx+add < len(x) by a dominating comparison in the caller.
+func indexInBoundsShifted(env *intervalEnv, x, idx ssa.Value, add int64, facts ssau.FactSet) bool {
+	ip := stripConv(ssau.Path(idx))
+	ir, ok := env.rangeOf(idx, facts, map[ssa.Value]bool{}, 0)
+	if !ok || ir.lo.Sign() < 0 {
+		return false
+	}
+	for f := range facts {
+		a, b := stripConv(f.Path), stripConv(f.Arg)
+		for _, lp := range lenPathsOf(x) {
+			lp = stripConv(lp)
+			if add == 0 && ((a == ip && b == lp && f.Kind == "lt") || (a == lp && b == ip && f.Kind == "gt")) {
+				return true
+			}
+		}
+	}
+	if add == 0 {
+		return callersEstablishIndex(env, x, idx) != ""
+	}
+	return false
+}
+
+// noKillBetween: no instruction on a path from the call to the instruction
+// `to` may overwrite the memory the path names.
+func noKillBetween(env *intervalEnv, c *ssa.Call, to ssa.Instruction, path string) bool {
+	if to == nil {
+		return false
+	}
+	kill := callAndStoreKills(env.p)
+	probe := ssau.Fact{Kind: "eq", Path: path, Arg: "k:0"}
+	seen := map[*ssa.BasicBlock]bool{}
+	type st struct {
+		b   *ssa.BasicBlock
+		idx int
+	}
+	work := []st{{c.Block(), ssau.InstrIndex(c) + 1}}
+	for len(work) > 0 {
+		cur := work[len(work)-1]
+		work = work[:len(work)-1]
+		if cur.b != to.Block() && !ssau.Reaches(cur.b, to.Block()) {
+			continue // this way never gets to the use
+		}
+		reached := false
+		for i := cur.idx; i < len(cur.b.Instrs); i++ {
+			in := cur.b.Instrs[i]
+			if in == to {
+				reached = true
+				break
+			}
+			if k := kill(in); k != nil && k(probe) {
+				return false
+			}
+		}
+		if reached {
+			continue
+		}
+		for _, s := range cur.b.Succs {
+			if !seen[s] {
+				seen[s] = true
+				work = append(work, st{s, 0})
+			}
+		}
+	}
+	return true
+}
+
+// ScopeSlice: the input side without the text formatters of decimal.go and
+// textutils.go, whose slice arithmetic over their own output needs string
+// reasoning this engine does not have (said so in the manifest).
+var ScopeSlice = Scope{Name: "reader, symbol table, unmarshal and timestamp files of package ion", Pkgs: []string{"ion"}, Files: append(append([]string{}, ReaderFiles...), "unmarshal.go", "symboltable.go", "symboltoken.go", "catalog.go", "fields.go", "timestamp.go")}
+
+// SliceResiduals: one named slice bound, one reason each.
+var SliceResiduals = []residual{
+	{"(*bitstream).readN", "[low bound phi filled]", "filled is 0 or len(bs) of the previous round and bs only grows by append, so filled <= len(bs); the loop invariant relates a phi to the length of another phi"},
+	{"(Timestamp).String", "[high bound phi timeZoneIndex]", "timeZoneIndex is the position of 'Z', '+' or '-' found in the same formatted string by LastIndex/IndexAny a few lines above (formatting side, not reachable with caller-controlled text)"},
+	{"(Timestamp).String", "[low bound phi timeZoneIndex]", "same value as the high bound above"},
+}
+
+// IndexResiduals: one named index, one reason each.
+var IndexResiduals = []residual{
+	{"(*lst).FindByName", "p.t^.offsets[", "offsets and imports are parallel slices built together by processImports (offsets := make([]uint64, len(imps))) and never changed (OWN-IMMUT); the index ranges over imports"},
+	{"(*lst).findByIDInImports", "p.t^.offsets[", "parallel to imports (see FindByName); the loop runs i from 1 while i < len(t.imports)"},
+	{"(*lst).findByIDInImports", "p.t^.imports[", "i-1 with i >= 1 and i <= len(t.imports) at loop exit"},
+	{"(*tokenizer).peekN", "[phi i]", "descending loop over the slice the first loop filled: i starts at len(ret)-1 and stops below 0"},
+	{"(*tokenizer).IsTripleQuote", "#0[k:", "peekN(2) returns two elements whenever it returns no error (it stops early only with an error), and the error is tested first"},
+	{"(*tokenizer).skipDoubleColon", "#0[k:", "peekN(2) returns two elements whenever it returns no error, and the error is tested first"},
+	{"parseInt", "p.str[k:0]", "called only with the text of a number token, which the tokenizer never produces empty"},
+}
+
+// sliceBoundOK: 0 <= b <= len(x) (cap for slices is at least len).
+func sliceBoundOK(env *intervalEnv, x, b ssa.Value, facts ssau.FactSet) string {
+	br, ok := env.rangeOf(b, facts, map[ssa.Value]bool{}, 0)
+	if !ok || br.lo.Sign() < 0 {
+		return ""
+	}
+	if kl, why := knownLen(env, x, facts, 0); why != "" && br.hi.Cmp(kl) <= 0 {
+		return "bound interval " + br.String() + " at most the length (at least " + kl.String() + ": " + why + ")"
+	}
+	if br.hi.Sign() == 0 {
+		return "bound 0"
+	}
+	bp := stripConv(ssau.Path(b))
+	for _, lp := range lenPathsOf(x) {
+		lp = stripConv(lp)
+		if bp == lp {
+			return "the bound is the length of the same object"
+		}
+		// len(x) - k
+		if bo, isB := b.(*ssa.BinOp); isB && bo.Op == token.SUB && stripConv(ssau.Path(bo.X)) == lp {
+			return "the length of the same object minus a value, non-negative by its interval"
+		}
+		for f := range facts {
+			a, c := stripConv(f.Path), stripConv(f.Arg)
+			if (a == bp && c == lp && (f.Kind == "le" || f.Kind == "lt" || f.Kind == "eq")) || (a == lp && c == bp && (f.Kind == "ge" || f.Kind == "gt" || f.Kind == "eq")) {
+				return "dominated by bound <= len of the same object"
+			}
+		}
+	}
+	// b = strings.Index(x, sep) + j with j <= len(sep), under Index(...) >= 0:
+	// a found separator lies inside the string
+	{
+		base, j := b, int64(0)
+		if bo, isB := b.(*ssa.BinOp); isB && bo.Op == token.ADD {
+			if k, isK := ssau.ConstInt(bo.Y); isK && k >= 0 {
+				base, j = bo.X, k
+			}
+		}
+		if c, isC := base.(*ssa.Call); isC {
+			if f := c.Call.StaticCallee(); f != nil && f.Pkg != nil && (f.Pkg.Pkg.Path() == "strings" || f.Pkg.Pkg.Path() == "bytes") && len(c.Call.Args) == 2 {
+				switch f.Name() {
+				case "Index", "LastIndex", "IndexAny", "IndexByte":
+					sepLen := int64(1)
+					if sep, isS := ssau.ConstString(c.Call.Args[1]); isS && (f.Name() == "Index" || f.Name() == "LastIndex") {
+						sepLen = int64(len(sep))
+					}
+					ir, okr := env.rangeOf(base, facts, map[ssa.Value]bool{}, 0)
+					if stripConv(ssau.Path(c.Call.Args[0])) == stripConv(ssau.Path(x)) && j <= sepLen && okr && ir.lo.Sign() >= 0 {
+						return "position of a separator found in the same string (plus at most its length)"
+					}
+				}
+			}
+		}
+	}
+	// both are parameters: every call site establishes the bound
+	if xp, isP := x.(*ssa.Parameter); isP {
+		if bp2, isP2 := b.(*ssa.Parameter); isP2 && xp.Parent() == bp2.Parent() {
+			if why := callersEstablishBound(env, xp, bp2); why != "" {
+				return why
+			}
+		}
+	}
+	// a bound that is an index of the same object already proven (i, i+1 after x[i] read) :
+	if by := indexInBounds(env, x, b, facts); by != "" {
+		return "a valid index of the same object is also a valid bound (" + by + ")"
+	}
+	if bo, isB := b.(*ssa.BinOp); isB && bo.Op == token.ADD {
+		if k, isK := ssau.ConstInt(bo.Y); isK && k == 1 {
+			if by := indexInBounds(env, x, bo.X, facts); by != "" {
+				return "a valid index plus one (" + by + ")"
+			}
+		}
+	}
+	return ""
+}
+
+// callersEstablishBound: at every call site the argument for b is at most the
+// known length of (or compared <= with the length of) the argument for x.
+func callersEstablishBound(env *intervalEnv, xp, bp *ssa.Parameter) string {
+	fn := xp.Parent()
+	if fn == nil || env.p == nil || fn.Object() == nil || fn.Object().Exported() || addressTaken(env.p, fn) || env.callDepth > 3 {
+		return ""
+	}
+	xi, bi2 := -1, -1
+	for i, q := range fn.Params {
+		if q == xp {
+			xi = i
+		}
+		if q == bp {
+			bi2 = i
+		}
+	}
+	sites := 0
+	for _, caller := range env.p.Funcs {
+		var ce *intervalEnv
+		for _, b := range caller.Blocks {
+			for _, in := range b.Instrs {
+				c, ok := in.(ssa.CallInstruction)
+				if !ok || c.Common().StaticCallee() != fn {
+					continue
+				}
+				sites++
+				if ce == nil {
+					ce = newIntervalEnv(env.p, caller)
+					ce.callDepth = env.callDepth + 1
+				}
+				ce.at = in
+				if sliceBoundOK(ce, c.Common().Args[xi], c.Common().Args[bi2], ce.ff.At(in)) == "" {
+					return ""
+				}
+			}
+		}
+	}
+	if sites == 0 {
+		return ""
+	}
+	return sprintf("every one of the %d call sites passes a bound within the length of the object it passes", sites)
 }
